@@ -1,0 +1,77 @@
+//go:build verif
+
+// Contracts for the govc verifier (see /verif/DESIGN.md). Comment-only file.
+package candidates
+
+//@ # ---------------------------------------------------------------- abstract views of the candidates module
+//@ # candExists(c, pk): pk is a live candidate; candID(c, pk): id of a live or removed candidate (0: never known);
+//@ # candObj(c, pk): the live candidate's record (nil: none); stakeObj(c, pk, a, coin): the stake record of delegator a
+//@ # in coin (nil: none). The lazily loading getters that define these in terms of cache-or-tree are ASSUMED
+//@ # (representation axioms); the mutators below are proved against them.
+//@ ghost candExists(c *Candidates, pk types.Pubkey) bool
+//@ ghost candID(c *Candidates, pk types.Pubkey) int
+//@ ghost candObj(c *Candidates, pk types.Pubkey) *Candidate
+//@ ghost stakeObj(c *Candidates, pk types.Pubkey, a types.Address, coin types.CoinID) *stake
+//@ ghost candCache() int
+//@ ghost candDirtyMarks() int
+
+//@ func (*Candidates).Exists
+//@   trusted
+//@   ensures result <==> candExists(c, pubkey)
+//@   modifies candCache
+//@ func iface RCandidates.Exists
+//@   ensures result <==> candExists(as(recv, "*Candidates"), arg0)
+//@   modifies candCache
+//@ func (*Candidates).ID
+//@   trusted
+//@   ensures result == candID(c, pubKey)
+//@   ensures candExists(c, pubKey) ==> result != 0
+//@   modifies candCache
+//@ func (*Candidates).GetCandidate
+//@   trusted
+//@   ensures result == candObj(c, pubkey)
+//@   ensures (result != nil) <==> candExists(c, pubkey)
+//@   modifies candCache
+//@ func (*Candidates).getFromMap
+//@   trusted
+//@   ensures result == candObj(c, pubkey)
+//@   ensures (result != nil) <==> candExists(c, pubkey)
+//@   modifies candCache
+//@ func (*Candidates).GetStakeOfAddress
+//@   trusted
+//@   ensures result == stakeObj(c, pubkey, address, coin)
+//@   ensures result != nil ==> result.Value != nil && result.Owner == address && result.Coin == coin
+//@   modifies candCache
+//@ func iface RCandidates.GetStakeValueOfAddress
+//@   ensures stakeObj(as(recv, "*Candidates"), arg0, arg1, arg2) == nil ==> result == nil
+//@   ensures stakeObj(as(recv, "*Candidates"), arg0, arg1, arg2) != nil ==> result == stakeObj(as(recv, "*Candidates"), arg0, arg1, arg2).Value && result != nil
+//@   modifies candCache
+//@ func field stake.markDirty
+//@   modifies candDirtyMarks
+
+//@ # ---------------------------------------------------------------- stake mutators (C01 truthful reporting, C02, C16)
+//@ func (*stake).subValue
+//@   serves C01 C16
+//@   requires stake != nil && stake.Value != nil && value != nil
+//@   ensures lowered: stake.Value != nil && stake.Value.val == old(stake.Value.val) - old(value.val) && fresh(stake.Value)
+//@   modifies stake.Value, candDirtyMarks
+//@ func (*stake).addValue
+//@   serves C01
+//@   requires stake != nil && stake.Value != nil && value != nil
+//@   ensures raised: stake.Value != nil && stake.Value.val == old(stake.Value.val) + old(value.val) && fresh(stake.Value)
+//@   modifies stake.Value, candDirtyMarks
+//@ func (*stake).setValue
+//@   serves C01 C18
+//@   requires stake != nil && ret != nil
+//@   ensures set: stake.Value != nil && stake.Value.val == old(ret.val) && fresh(stake.Value)
+//@   modifies stake.Value, candDirtyMarks
+
+//@ # the delegator's stake goes down by exactly the value, and the ledger is told the same coin and amount
+//@ func (*Candidates).SubStake
+//@   serves C01 C16 C02
+//@   let s = stakeObj(c, pubkey, address, coin)
+//@   requires c != nil && c.bus != nil && value != nil
+//@   requires present: s != nil
+//@   ensures lowered: s.Value != nil && s.Value.val == old(s.Value.val) - old(value.val)
+//@   ensures reported: ledgerDelta(c.bus.checker, coin) == old(ledgerDelta(c.bus.checker, coin)) - old(value.val)
+//@   modifies s.Value, candDirtyMarks, candCache, ledgerDelta(c.bus.checker, coin)
